@@ -16,17 +16,20 @@ vars == <<head, tail, next, data, used, retired, q, pc, r, cnt, nextval>>
 Proc == Prod \cup Cons
 Node == 1..MaxNode
 NULL == 0
-Pred(v) == v % 2 = 0
-R0 == [t |-> NULL, nx |-> NULL, n |-> NULL, h |-> NULL, front |-> -1, cond |-> FALSE, want |-> FALSE, res |-> -2]
+\* the predicate of a conditional pop: "even" (pe) or "below the bound pb" (the two forms the conformance harness uses)
+R0 == [t |-> NULL, nx |-> NULL, n |-> NULL, h |-> NULL, front |-> -1, cond |-> FALSE, want |-> FALSE, res |-> -2, pe |-> TRUE, pb |-> 0]
 Init == /\ head = 1 /\ tail = 1 /\ next = [n \in Node |-> NULL] /\ data = [n \in Node |-> 0]
         /\ used = 1 /\ retired = {} /\ q = <<>> /\ pc = [p \in Proc |-> "idle"]
         /\ r = [p \in Proc |-> R0] /\ cnt = [p \in Proc |-> 0] /\ nextval = 1
 Goto(p, l) == pc' = [pc EXCEPT ![p] = l]
+PredOf(p, v) == IF r[p].pe THEN v % 2 = 0 ELSE v < r[p].pb
 \* ---------------- push ----------------
-PushStart(p) == /\ p \in Prod /\ pc[p] = "idle" /\ cnt[p] < PushesPer /\ used < MaxNode
-                /\ used' = used + 1 /\ data' = [data EXCEPT ![used + 1] = nextval] /\ nextval' = nextval + 1
+PushStartV(p, v) ==   \* push of the value v (trace validation binds it)
+                /\ p \in Prod /\ pc[p] = "idle" /\ cnt[p] < PushesPer /\ used < MaxNode
+                /\ used' = used + 1 /\ data' = [data EXCEPT ![used + 1] = v] /\ nextval' = nextval + 1
                 /\ r' = [r EXCEPT ![p] = [R0 EXCEPT !.n = used + 1]] /\ cnt' = [cnt EXCEPT ![p] = @ + 1]
                 /\ Goto(p, "L1") /\ UNCHANGED <<head, tail, next, retired, q>>
+PushStart(p) == PushStartV(p, nextval)
 L1(p) == /\ pc[p] = "L1" /\ r' = [r EXCEPT ![p].t = tail] /\ Goto(p, "L2")
          /\ UNCHANGED <<head, tail, next, data, used, retired, q, cnt, nextval>>
 L2(p) == /\ pc[p] = "L2" /\ r' = [r EXCEPT ![p].nx = next[r[p].t]]
@@ -42,10 +45,12 @@ L4(p) == /\ pc[p] = "L4"
 L5(p) == /\ pc[p] = "L5" /\ tail' = (IF tail = r[p].t \/ "PushTailStore" \in Mut THEN r[p].n ELSE tail) /\ Goto(p, "idle")
          /\ UNCHANGED <<head, next, data, used, retired, q, r, cnt, nextval>>
 \* ---------------- try_pop / try_pop_if ----------------
-PopStart(p) == /\ p \in Cons /\ pc[p] = "idle" /\ cnt[p] < PopsPer
-               /\ \E c \in BOOLEAN : r' = [r EXCEPT ![p] = [R0 EXCEPT !.cond = c, !.want = c]]
+PopStartC(p, c, pe, pb) ==   \* try_pop (c = FALSE) / try_pop_if with the given predicate
+               /\ p \in Cons /\ pc[p] = "idle" /\ cnt[p] < PopsPer
+               /\ r' = [r EXCEPT ![p] = [R0 EXCEPT !.cond = c, !.want = c, !.pe = pe, !.pb = pb]]
                /\ cnt' = [cnt EXCEPT ![p] = @ + 1] /\ Goto(p, "P1")
                /\ UNCHANGED <<head, tail, next, data, used, retired, q, nextval>>
+PopStart(p) == \E c \in BOOLEAN : PopStartC(p, c, TRUE, 0)
 P1(p) == /\ pc[p] = "P1"
          /\ r' = [r EXCEPT ![p].h = head, ![p].front = IF q = <<>> THEN -1 ELSE Head(q)]
          /\ Goto(p, "P2") /\ UNCHANGED <<head, tail, next, data, used, retired, q, cnt, nextval>>
@@ -53,8 +58,8 @@ P2(p) == /\ pc[p] = "P2"
          /\ LET nx == next[r[p].h] IN
             /\ r' = [r EXCEPT ![p].nx = nx,
                               ![p].front = IF nx = NULL THEN (IF q = <<>> THEN -1 ELSE Head(q)) ELSE @,
-                              ![p].res = IF nx = NULL THEN -1 ELSE IF r[p].cond /\ ~Pred(data[nx]) THEN -3 ELSE -2]
-            /\ Goto(p, IF nx = NULL \/ (r[p].cond /\ ~Pred(data[nx])) THEN "ret_none" ELSE "P4")
+                              ![p].res = IF nx = NULL THEN -1 ELSE IF r[p].cond /\ ~PredOf(p, data[nx]) THEN -3 ELSE -2]
+            /\ Goto(p, IF nx = NULL \/ (r[p].cond /\ ~PredOf(p, data[nx])) THEN "ret_none" ELSE "P4")
          /\ UNCHANGED <<head, tail, next, data, used, retired, q, cnt, nextval>>
 P4(p) == /\ pc[p] = "P4"
          /\ IF head = r[p].h
@@ -76,7 +81,7 @@ Next == \E p \in Proc : PushStart(p) \/ L1(p) \/ L2(p) \/ L3(p) \/ L4(p) \/ L5(p
 Spec == Init /\ [][Next]_vars
 \* ---------------- properties ----------------
 \* successful pop returned exactly the abstract head (checked at the step after the CAS)
-PopOK == \A p \in Cons : pc[p] \in {"P5", "P6", "P7"} => r[p].res = r[p].front /\ (r[p].want => Pred(r[p].res))
+PopOK == \A p \in Cons : pc[p] \in {"P5", "P6", "P7"} => r[p].res = r[p].front /\ (r[p].want => PredOf(p, r[p].res))
 \* empty result: queue was empty at P2 (nx = NULL)
 EmptyOK == \A p \in Cons : (pc[p] = "ret_none" /\ r[p].res = -1) => r[p].front = -1
 \* predicate result: the element shown was the head at P1, or the queue was empty at P1
